@@ -108,10 +108,40 @@ func ingressBubble(c *explore.Ctx, pc *world.ProducerChain, crowded bool) (out o
 		}
 	}
 	out.trace = append(out.trace, "DA:"+strings.Join(layout, ","), fmt.Sprintf("p2p=%v ahead=%v", p2p, ahead))
-	p := world.Params{InitialHeight: pc.Initial, DAStartHeight: 1, RootDir: root}
+	p := world.Params{InitialHeight: pc.Initial, DAStartHeight: 1, RootDir: root, CustomPayload: pc.Params.CustomPayload}
 	restarts := 0
 	var f *world.FullL2
 	var sched *world.Sched
+	// stopSig renders everything a clean stop keeps: the store (its write log only grows) and the two caches
+	lastStopSig := ""
+	stopSig := func() string {
+		if f == nil || f.Sched != sched {
+			return "" // the node is being started
+		}
+		hi, hh, hd := f.N.M.VerifHeaderCache().VerifC12Dump()
+		di, dh, dd := f.N.M.VerifDataCache().VerifC12Dump()
+		var parts []string
+		for k := range hi {
+			parts = append(parts, fmt.Sprintf("hi:%v", k))
+		}
+		for k, v := range hh {
+			parts = append(parts, fmt.Sprintf("hs:%s=%v", k, v))
+		}
+		for k, v := range hd {
+			parts = append(parts, fmt.Sprintf("hd:%s=%d", k, v))
+		}
+		for k := range di {
+			parts = append(parts, fmt.Sprintf("di:%v", k))
+		}
+		for k, v := range dh {
+			parts = append(parts, fmt.Sprintf("ds:%s=%v", k, v))
+		}
+		for k, v := range dd {
+			parts = append(parts, fmt.Sprintf("dd:%s=%d", k, v))
+		}
+		sort.Strings(parts)
+		return fmt.Sprintf("%d|%s", f.N.KV.NumWrites(), strings.Join(parts, ","))
+	}
 	boot := func(img map[string][]byte) *world.Fail {
 		// Decisions at this level are about EVENTS: whenever a queued event could be delivered, the explorer decides
 		// who goes next — a producer thread (running ahead, filling the queues), the next header or the next data
@@ -157,6 +187,14 @@ func ingressBubble(c *explore.Ctx, pc *world.ProducerChain, crowded bool) (out o
 			}
 			for _, v := range sched.Virtuals {
 				if v.Enabled() {
+					// A stop keeps the store and the caches (SaveCache) and nothing else: queued events and the progress
+					// inside the threads are lost. Two stop points of one tick with the same store and caches therefore
+					// lead to the same second life; the decision is offered once per distinct (store, caches) state.
+					sig := stopSig()
+					if sig != "" && sig == lastStopSig {
+						return false
+					}
+					lastStopSig = sig
 					return c.Choose("restart", 2) == 1
 				}
 			}
@@ -204,7 +242,6 @@ func ingressBubble(c *explore.Ctx, pc *world.ProducerChain, crowded bool) (out o
 			}
 		}
 		out.trace = append(out.trace, fmt.Sprintf("clean-restart(after %d steps, queued and lost: %s)", sched.Steps, strings.Join(queued, "+")))
-		out.lostQueued = out.lostQueued || len(queued) > 0
 		f.Stop()
 		if err := f.N.M.SaveCache(); err != nil {
 			return &world.Fail{Clause: "restart", Msg: "SaveCache: " + err.Error()}
@@ -215,6 +252,7 @@ func ingressBubble(c *explore.Ctx, pc *world.ProducerChain, crowded bool) (out o
 		return check(false)
 	}
 	step := func(tick func()) *world.Fail {
+		lastStopSig = "" // a new tick: the environment has moved on, every state is a new stop point
 		tick()
 		if fl := handle(); fl != nil {
 			return fl
@@ -280,6 +318,9 @@ func ingressBubble(c *explore.Ctx, pc *world.ProducerChain, crowded bool) (out o
 		out.fail = fl
 		if restarts > 0 {
 			out.tags = append(out.tags, "clean-restart")
+		}
+		if pc.Params.CustomPayload {
+			out.tags = append(out.tags, "custom-signature-payload-provider")
 		}
 		return
 	}
